@@ -2,6 +2,7 @@
 # tools/try_mutation.sh <name> <patch.diff> <demo.py> <check ids...>
 # Applies the patch to a scratch worktree of /repo HEAD, confirms the demo fails there and passes on
 # /repo, runs the named checks against the worktree, prints which ones report a VIOLATION.
+export OMP_NUM_THREADS=1 OPENBLAS_NUM_THREADS=1 MKL_NUM_THREADS=1
 name=$1; patch=$2; demo=$3; shift 3
 wt=/tmp/try_$name
 git -C /repo worktree remove --force $wt 2>/dev/null
